@@ -155,6 +155,7 @@ struct PkgEngine : Engine {
 			unsigned dk = (unsigned)w.below(6);
 			if (dk >= 1) o["dir"] = dk == 1 ? "/sim/assets/" : "/sim/assets";
 			o["env"] = gen_env(en);
+			if (w.chance(1, 10)) { o["k"] = "CLI_PKG"; o["ext"] = 0; o["lang"] = 0; o["dir"] = "/sim/assets"; }      // the command line tool: -t FORMAT -o FILE (observe_at: file written by CLI -o)
 			ops.push(o);
 		}
 		p["ops"] = ops;
@@ -186,7 +187,21 @@ struct PkgEngine : Engine {
 			const std::string & doc = docs[(size_t)op.geti("doc") % docs.size()].s;
 			Json o = Json::object();
 			o["k"] = kind;
-			if (kind == "RENDER") {
+			if (kind == "CLI_PKG") {
+				static const char * names[] = {"html", "epub", "latex", "beamer", "memoir", "fodt", "odt", "bundle", "bundlezip", "opml", "itmz", "mmd"};
+				SimFile f; f.versions.push_back(doc);
+				g_sim.files["/sim/assets/__doc.txt"] = f;
+				std::vector<std::string> args = {"multimarkdown", "-t", names[op.geti("fmt") % 12], "-o", "/sim/assets/__out.bin", "/sim/assets/__doc.txt"};
+				std::vector<char *> argv; for (auto & a2 : args) argv.push_back(&a2[0]); argv.push_back(nullptr);
+				int rc = IN_LIB(mmd_cli_main((int)args.size(), argv.data()));
+				auto it = g_sim.files.find("/sim/assets/__out.bin");
+				o["archive"] = it == g_sim.files.end() ? std::string() : it->second.written;
+				o["rc"] = rc; o["cli"] = true; o["assets"] = Json::array();
+				if (it != g_sim.files.end()) g_sim.files.erase(it);
+				g_sim.files.erase("/sim/assets/__doc.txt");
+				probes["cli_packages"]++;
+				g_log.ev("clipkg", digest(o.gets("archive")));
+			} else if (kind == "RENDER") {
 				// the plain format, as the first library call of a fresh process (reference)
 				if (op.geti("fmt") == FMT_FODT) {
 					// the flat OpenDocument file (with its office:text element) only exists through convert_to_data
@@ -281,17 +296,20 @@ struct PkgEngine : Engine {
 		const Json & outs = out.result.at("ops");
 		for (size_t k = 0; k < ops.size() && k < outs.size(); k++) {
 			const Json & op = ops[k];
-			if (op.gets("k") != "PKG") continue;
+			if (op.gets("k") != "PKG" && op.gets("k") != "CLI_PKG") continue;
 			Json req = Json::object();
+			if (op.gets("k") == "CLI_PKG") req["cli"] = true;
 			req["fmt"] = op.geti("fmt");
 			req["archive"] = outs[k].at("archive");
 			req["assets"] = outs[k].at("assets");
 			req["source"] = plan.at("docs")[(size_t)op.geti("doc") % plan.at("docs").size()];
 			req["ext"] = op.geti("ext");
 			if (op.has("dir")) req["directory"] = op.at("dir");
-			ChildOutcome r = ctx.run_ref(render_plan(plan, op));
-			req["ref_status"] = r.status;
-			if (r.status == "finished") req["ref_main"] = r.result.at("ops")[(size_t)0].at("text");
+			if (op.gets("k") == "PKG") {
+				ChildOutcome r = ctx.run_ref(render_plan(plan, op));
+				req["ref_status"] = r.status;
+				if (r.status == "finished") req["ref_main"] = r.result.at("ops")[(size_t)0].at("text");
+			} else req["ref_status"] = "not-applicable";      // the CLI transcludes, seeds rand from the clock and hides its asset table: structure and CRCs only
 			Json v = g_py.ask(req);
 			if (v.has("harness")) { Json h = Json::object(); h["harness"] = "oracle: " + v.gets("harness"); return h; }
 			if (!v.getb("ok")) {
